@@ -213,6 +213,23 @@ CHECKS = {
         note='Trusted: the mock Dezyne runtime headers (mirroring the standard headers the real ones include), the mock model '
              'header, g++ 12/clang++ 14 (-std=c++17, errors only). TLA+ supplies the scenario space and a prediction; whether a '
              'text is valid C++ is decided by the compilers.'),
+    'C11': dict(
+        technique='implementation-shaped TLA+ interleaving model (MultiClientConc.tla) checked exhaustively with TLC for mutual '
+                  'exclusion, deadlock freedom and HolderReceives; a state cover of its behaviours replayed on the real compiled '
+                  'shell with real threads under a cooperative scheduler (yield points: ILog callbacks, every lock operation of '
+                  'generated code, out-event handler); ThreadSanitizer run; MutexWrapped.tla replayed on the generated helper',
+        text='MultiClientConc.tla has one action per step the generated lambdas really take (forwarded call, dispatcher step, '
+             'Select/Deselect as separate steps on the client thread, delivery while holding the lock) and two switches for the '
+             'listed known findings H and I; TLC explores 2 clients x 2 cycles and 3 clients x 1 cycle with stray releases and '
+             'out-events at every point. One shortest schedule per reachable state (about 1100) is replayed on real threads: '
+             'after every step the position of every thread, the receiver of the out-event, replies, the number of critical '
+             'sections per step and (at the end) that Select/Deselect cannot proceed while a delivery holds the lock are '
+             'compared with the model. The strict property is evaluated on the model and on every real execution; divergences '
+             'must match H or I.',
+        design='3/C11',
+        note=BASE_TRUST + 'Interleavings are explored at the granularity of the yield points; finer ones only by the '
+             'ThreadSanitizer stress run (3 clients, free-running dispatcher). Trusted: mock runtime with threaded pump, the '
+             'scheduler in the generated driver, the pthread_mutex_lock interposer, g++ 12 TSan.'),
 }
 
 NOT_YET = {}
